@@ -496,7 +496,7 @@ func workloads(r *mc.Run) (ws []workload, bound []int) {
 		for i := 0; i < n; i++ {
 			for j := 0; j < n; j++ {
 				for k := 0; k < n; k++ {
-					add(workload{root, [][]cop{{alphabet[i]}, {alphabet[j]}, {alphabet[k]}}}, mc.Pick(r, 2, -1))
+					add(workload{root, [][]cop{{alphabet[i]}, {alphabet[j]}, {alphabet[k]}}}, mc.Pick(r, 2, 4))
 				}
 			}
 		}
@@ -538,6 +538,18 @@ func workloads(r *mc.Run) (ws []workload, bound []int) {
 	if !r.Quick() {
 		m := len(alphabet6)
 		// 2 threads x 3 ops and 3 threads x 2 ops over the small alphabet
+		// 3 threads x 1 op over the small alphabet: every schedule
+		fam = "3x1 over 6 operations, unbounded"
+		for root := 0; root < baseRoots; root++ {
+			for _, a := range alphabet6 {
+				for _, b := range alphabet6 {
+					for _, c := range alphabet6 {
+						add(workload{root, [][]cop{{a}, {b}, {c}}}, -1)
+					}
+				}
+			}
+		}
+		// 2 threads x 3 ops from the full cache, 3 threads x 2 ops (a third of them per root)
 		fam = "2x3 and 3x2 over 6 operations"
 		for root := 0; root < baseRoots; root++ {
 			var triples, dbl [][]cop
@@ -551,7 +563,9 @@ func workloads(r *mc.Run) (ws []workload, bound []int) {
 			}
 			for _, a := range triples {
 				for _, b := range triples {
-					add(workload{root, [][]cop{a, b}}, 2)
+					if root == 2 {
+						add(workload{root, [][]cop{a, b}}, 2)
+					}
 				}
 			}
 			for ai, a := range dbl {
@@ -866,7 +880,7 @@ func parent(r *mc.Run, nworkloads int) {
 	r.Count("workloads_enumerated", int64(nworkloads))
 	r.Count("workloads_with_more_than_one_final_outcome", int64(multi))
 	r.Bound("worker_processes", n)
-	r.Bound("preemption_bound", mc.Pick(r, "2x2 over 12 operations: 2; 2x2 over 6 operations: 3; 3x1: 2; 4x1 over 6 operations: 1; 2x1: unbounded", "2x2 over 12 operations: 3; 2x2 over 6 operations: 4; 2x3 and 3x2 over 6 operations: 2; 3x1: unbounded; 4x1 over 6 operations: 2; 2x1: unbounded"))
+	r.Bound("preemption_bound", mc.Pick(r, "2x2 over 12 operations: 2; 2x2 over 6 operations: 3; 3x1: 2; 4x1 over 6 operations: 1; 2x1: unbounded", "2x2 over 12 operations: 3; 2x2 over 6 operations: 4; 2x3 (full cache) and 3x2 over 6 operations: 2; 3x1 over 12 operations: 4, over 6 operations: unbounded; 4x1 over 6 operations: 2; 2x1: unbounded"))
 	r.Bound("roots", mc.Pick(r, "2x2 over 12 operations: full cache; everything else: empty, half full, full", "empty, half full, full"))
 	r.Rule("states = workloads, transitions = complete executions (schedules) of the real Cache under the cooperative scheduler; every schedule within the preemption bound; scheduling points at Lock/Unlock/RLock/RUnlock, every Store-seam call, the eviction callback, operation call and return; non-trivial = executions with at least one preemption")
 	r.Assume("sequential consistency; unsynchronised accesses to plain fields are visible only to the separate free-running -race pass (sampling, a complement)")
